@@ -27,23 +27,27 @@ def escape_char(text):
                .replace('\n', r'\n')
 
 
+_UNESCAPE_CHAR = re.compile(r'\\([\\;,Nn])')
+_UNESCAPE_CHAR_BYTES = re.compile(br'\\([\\;,Nn])')
+
+
+def _unescape_match(match):
+    char = match.group(1)
+    if char in ('n', 'N', b'n', b'N'):
+        return '\n' if isinstance(char, str) else b'\n'
+    return char
+
+
 def unescape_char(text):
     assert isinstance(text, (str, bytes))
-    # NOTE: ORDER MATTERS!
+    # Decode all escape sequences in one pass from left to right, so that
+    # the second character of an escaped backslash is never taken for the
+    # start of the next escape sequence (r"\\n" is a backslash and an n).
     if isinstance(text, str):
-        return text.replace('\\N', '\\n')\
-                   .replace('\r\n', '\n')\
-                   .replace('\\n', '\n')\
-                   .replace('\\,', ',')\
-                   .replace('\\;', ';')\
-                   .replace('\\\\', '\\')
+        return _UNESCAPE_CHAR.sub(_unescape_match, text.replace('\r\n', '\n'))
     elif isinstance(text, bytes):
-        return text.replace(b'\\N', b'\\n')\
-                   .replace(b'\r\n', b'\n')\
-                   .replace(b'\\n', b'\n')\
-                   .replace(b'\\,', b',')\
-                   .replace(b'\\;', b';')\
-                   .replace(b'\\\\', b'\\')
+        return _UNESCAPE_CHAR_BYTES.sub(
+            _unescape_match, text.replace(b'\r\n', b'\n'))
 
 
 def foldline(line, limit=75, fold_sep='\r\n '):
